@@ -140,6 +140,37 @@ def lazyEval (K : Kernels) (seeds : Seeds) (dose : Dose) (ch : Chunking) (ent : 
       calcBlock K S D (blockKey (blockId seeds dose ch.baseDims a b c))
         (ent ((a * sB.length + b) * (splitBy ch.items items).length + c)) I
 
+/-! ### measurement classes -/
+
+/-- the measurement classes `poisson_noise` is defined on (`BaseMeasurements` subclasses) -/
+inductive MeasClass where
+  | images | diffractionPatterns | polarMeasurements | realSpaceLineProfiles | reciprocalSpaceLineProfiles
+  | measurementsEnsemble | indexedDiffractionPatterns
+  deriving DecidableEq, Repr
+
+/-- number of base axes -/
+def MeasClass.baseDims : MeasClass → Nat
+  | .images | .diffractionPatterns | .polarMeasurements => 2
+  | .realSpaceLineProfiles | .reciprocalSpaceLineProfiles | .indexedDiffractionPatterns => 1
+  | .measurementsEnsemble => 0
+
+/-- `ArrayObject.apply_transform` ends with `cls.from_array_and_metadata(array, axes_metadata, metadata)`.
+`IndexedDiffractionPatterns` defines it as an *instance* method that raises NotImplementedError (its Miller indices are not
+part of the axes metadata), so the class-level call fails with TypeError for every transform, eager or lazy. -/
+def MeasClass.rebuildable : MeasClass → Bool
+  | .indexedDiffractionPatterns => false
+  | _ => true
+
+/-- eager `poisson_noise` on a measurement of class `cls` -/
+def noiseOn (K : Kernels) (cls : MeasClass) (seeds : Seeds) (dose : Dose) (entropy : Nat) (items : List (List Rat)) :
+    Except String (Arr4 Int) :=
+  if cls.rebuildable then .ok (eager K seeds dose entropy items) else .error "type_error"
+
+/-- lazy `poisson_noise` on a measurement of class `cls` (its number of base axes enters the block positions) -/
+def lazyNoiseOn (K : Kernels) (cls : MeasClass) (seeds : Seeds) (dose : Dose) (cd cs ci : List Nat) (ent : Nat → Nat)
+    (items : List (List Rat)) : Except String (Arr4 Int) :=
+  if cls.rebuildable then lazyEval K seeds dose ⟨cd, cs, ci, cls.baseDims⟩ ent items else .error "type_error"
+
 /-! ### the tagging kernels used by the driver (mirrored by the harness' fake `np.random`) -/
 
 def tagK : Kernels where
